@@ -200,6 +200,28 @@ def trace_core(ctx, prop, runs):
     ctx.violations.append(dict(property=prop, what=f"trace validation: event {ev.get('e')} of run {run['run']} rejected by the specification", replay=rp))
 
 
+def algo_drift(ctx, runs):
+    """advisory: step events from the hooks must be steps of HpoAlgo's machines; mismatch = algorithm drift, never a violation"""
+    tf = os.path.join(ctx.scratch, "algo.ndjson")
+    s = hv(ctx, "record-algo", trace=tf, runs=runs)
+    ok, line_no = tlc_trace(ctx, "trace/TraceAlgo.cfg", "trace/TraceAlgo.tla", tf)
+    ctx.extra["algorithm_drift"] = not ok
+    ctx.extra["hook_events_validated"] = s.get("counters", {}).get("hook_events", 0) if ok else 0
+    if not ok:
+        ev = {}
+        try:
+            ev = json.loads(open(tf).read().splitlines()[line_no - 1])
+        except Exception:
+            pass
+        if "proj" in ev:
+            ev["proj"] = "..."
+        ctx.extra["algorithm_drift_at"] = {"line": line_no, "event": ev}
+        log(f"ADVISORY algorithm drift: step event at trace line {line_no} ({ev.get('e')}) is not a step of spec/HpoAlgo.tla; "
+            "the design-level results about the cache heuristic / early exit no longer describe this code (not a property violation)")
+    else:
+        ctx.traces += s.get("cases", 0)
+
+
 def load_known():
     p = os.path.join(VERIF, "known_findings.json")
     if not os.path.exists(p):
@@ -307,6 +329,7 @@ def check_C01(ctx):
     s = hv(ctx, "replay-core", prop="C01", **{"in": allout}, jax_every=(8 if ctx.quick else 2))
     ctx.traces += s.get("cases", 0)
     trace_core(ctx, "C01", 10 if ctx.quick else 300)
+    algo_drift(ctx, 20 if ctx.quick else 400)
     ctx.assumptions += [
         "TLC explores the stated finite model exhaustively; beyond its bounds (more than 4-5 terms) only simulated/recorded runs are validated",
         "the harness' binary encoder and obo writer are cross-checked against the TLA+ encoders by the C08 / C09 checks",
@@ -338,6 +361,7 @@ def check_C02(ctx):
     s = hv(ctx, "replay-core", prop="C02", **{"in": allout}, jax_every=(4 if ctx.quick else 1), concs="dense,roots0_1,random")
     ctx.traces += s.get("cases", 0)
     trace_core(ctx, "C02", 10 if ctx.quick else 300)
+    algo_drift(ctx, 20 if ctx.quick else 400)
     ctx.assumptions += ["kinds are independent instances of one machine in the spec; leaks between kinds are detected at the binding level (ids shared across kinds)",
                         "exhaustive within 3-4 term ids and <=3 facts; simulation beyond"]
     return finish(ctx)
@@ -593,6 +617,13 @@ def main(argv):
         return setup()
     if argv[0] == "replay":
         return replay(argv[1])
+    if argv[0] == "selftest":
+        import hvselftest
+        try:
+            return hvselftest.run(full="--full" in argv)
+        except ToolError as e:
+            log(f"TOOL-ERROR: {e}")
+            return 2
     prop = argv[0]
     tier = os.environ.get("VERIF_TIER", "quick")
     seed = int(os.environ.get("VERIF_SEED", "1"))
